@@ -30,100 +30,111 @@ def run(c):
               "directories around it is compared before / after; the real binary additionally runs under strace -f: any open for writing / creating and any unlink, rename, mkdir, rmdir, link, symlink, truncate, chmod, chown, "
               "utime, mknod, setxattr anywhere is a violation. Class = (method, route/body shape, engine); non-trivial = not a plain GET.")
     rng = c.rng
-    t = treegen.generate(rng.fork("tree"), depth=2, outside_links=True, tag="c13")
     for m in reqgen.METHODS:
         c.need("method " + m)
     c.need("upload-shaped bodies")
     c.need("strace lane saw an open of a served file")
-    try:
-        # sentinel directory next to the tree + manifests of everything under the scratch base
-        sentinel = os.path.join(t.base, "sentinel")
-        os.makedirs(sentinel)
-        open(os.path.join(sentinel, "keep.txt"), "w").write("sentinel")
-        before = fsmon.manifest(t.base)
-        cwd_before = fsmon.manifest(build.VERIF) if False else None
-        inputs = c04.build_inputs(c, t, rng)
-        ups = upload_requests(t, rng)
-        n_in = 2500 if c.quick else 30000
-        pick = [inputs[i] for i in sorted(rng.sample(range(len(inputs)), min(n_in, len(inputs)))) if "bufsize" not in inputs[i][0]]
-        # ---- Engine A, both entry points
-        for entry in ("process", "legacy"):
-            raws = [x[1] for x in pick] + [u[2] for u in ups]
-            rs = fetch.inproc(t.root, raws, entry=entry)
-            for raw, r in zip(raws, rs):
-                c.ev()
-                m = raw.split(b" ", 1)[0].decode("latin-1").upper()
-                if m in reqgen.METHODS:
-                    c.seen("method " + m)
-            for m, shape, raw in ups:
-                c.cls(m, shape, entry)
-                c.seen("upload-shaped bodies")
-            for label, raw in pick:
-                if label["kind"] != "valid":
-                    c.cls(raw.split(b" ", 1)[0][:8].decode("latin-1"), label["route"], entry)
-            d = fsmon.diff(before, fsmon.manifest(t.base))
-            for kind, p, a, b in d:
-                c.violation("C13:manifest:%s:%s" % (kind.split(" ")[0], "inside-root" if p.startswith("outer2/outer1/root") else "outside-root"), "after the in-process campaign on %s: %s %s (before %r, after %r)" % (entry, kind, p, a, b), {"entry": entry, "path": p})
-            if d:
-                before = fsmon.manifest(t.base)
-        # ---- Engine B under strace
-        srv = server.Server(t.root, threads=4, strace=True)
-        if not srv.started:
-            c.inconc("strace server did not start")
-            srv.cleanup()
-        else:
-            try:
-                served_file = sorted(k for k in t.files if len(t.files[k]) > 50)[0]
-                srv.request(("GET %s HTTP/1.1\r\nHost: x\r\n\r\n" % served_file).encode())
-                nb = 1200 if c.quick else 8000
-                bpick = pick[:nb]
-                history = []
-                for i, (m, shape, raw) in enumerate(ups):
-                    srv.request(raw, timeout=10)
-                    c.ev()
-                    c.cls(m, shape, "binary")
-                    if not srv.alive():
-                        break
-                for label, raw in bpick:
-                    if not srv.alive():
-                        break
-                    if len(raw) > 10000:
-                        continue
-                    srv.request(raw, timeout=10)
-                    c.ev()
-                # a C06-style history with transport faults
-                valid = reqgen.valid_requests(t, rng)
-                crashers = c06.corpus()
-                for k in [rng.choice(c06.FAULTS) for _ in range(40 if c.quick else 600)]:
-                    if not srv.alive():
-                        break
-                    if k == "rst-before-send":
-                        continue   # ends the accept loop on the unrepaired tree; the manifest check below does not need it
-                    c06.step(srv, k, rng, valid, crashers, [x[1] for x in pick[:50] if len(x[1]) < 9000] or [b'GET / HTTP/1.1\r\n\r\n'])
-                    c.ev()
-                    c.cls("history", k, "binary")
-                srv.stop()
-                bad, opens, writes = fsmon.strace_findings(srv.strace_path)
-                c.count("strace_opens_inspected", opens)
-                trace_text = open(srv.strace_path, errors="replace").read()
-                if os.path.basename(served_file) in trace_text:
-                    c.seen("strace lane saw an open of a served file")
-                for sc, ln in bad:
-                    c.violation("C13:syscall:%s" % sc.split(":")[0], "mutating filesystem syscall by the server process tree: %s" % ln, {"line": ln})
-                for p, ln in writes:
-                    if p.startswith("/dev/") or p.startswith("/proc/"):
-                        continue
-                    c.violation("C13:syscall:write-to-file", "write to an opened file %s: %s" % (p, ln), {"line": ln})
-                c.extra["strace_mutating_syscalls"] = len(bad)
-            finally:
-                srv.cleanup()
-        d = fsmon.diff(before, fsmon.manifest(t.base))
-        for kind, p, a, b in d:
-            c.violation("C13:manifest:%s:%s" % (kind.split(" ")[0], "inside-root" if p.startswith("outer2/outer1/root") else "outside-root"), "after the real-binary campaign: %s %s (before %r, after %r)" % (kind, p, a, b), {"path": p})
-        c.extra["manifest_entries_compared"] = len(before)
-        c.sample({"manifest_entries": len(before), "upload_requests": [(m, s) for m, s, _ in ups[:6]], "root": t.root})
-        for p in ("/tmp/rws-evil", "/tmp/rws-evil2"):
-            if os.path.exists(p):
-                c.violation("C13:created-outside:/tmp", "%s exists after the campaign" % p, {"path": p})
-    finally:
+    c.need("tree without 404.html / index.html")
+    # one tree with the optional root files the built-in pages fall back on, one without them (a default that is
+    # "created on first use" only shows when the file is missing)
+    for variant, (ri, r4) in enumerate(((True, True), (False, False))):
+        t = treegen.generate(rng.fork("tree", variant), depth=2, outside_links=True, tag="c13-%d" % variant, root_index=ri, root_404=r4)
+        if not r4:
+            c.seen("tree without 404.html / index.html")
+        campaign(c, rng, t)
+
+
+def campaign(c, rng, t):
+    if True:
+      try:
+          # sentinel directory next to the tree + manifests of everything under the scratch base
+          sentinel = os.path.join(t.base, "sentinel")
+          os.makedirs(sentinel)
+          open(os.path.join(sentinel, "keep.txt"), "w").write("sentinel")
+          before = fsmon.manifest(t.base)
+          cwd_before = fsmon.manifest(build.VERIF) if False else None
+          inputs = c04.build_inputs(c, t, rng)
+          ups = upload_requests(t, rng)
+          n_in = 2500 if c.quick else 30000
+          pick = [inputs[i] for i in sorted(rng.sample(range(len(inputs)), min(n_in, len(inputs)))) if "bufsize" not in inputs[i][0]]
+          # ---- Engine A, both entry points
+          for entry in ("process", "legacy"):
+              raws = [x[1] for x in pick] + [u[2] for u in ups]
+              rs = fetch.inproc(t.root, raws, entry=entry)
+              for raw, r in zip(raws, rs):
+                  c.ev()
+                  m = raw.split(b" ", 1)[0].decode("latin-1").upper()
+                  if m in reqgen.METHODS:
+                      c.seen("method " + m)
+              for m, shape, raw in ups:
+                  c.cls(m, shape, entry)
+                  c.seen("upload-shaped bodies")
+              for label, raw in pick:
+                  if label["kind"] != "valid":
+                      c.cls(raw.split(b" ", 1)[0][:8].decode("latin-1"), label["route"], entry)
+              d = fsmon.diff(before, fsmon.manifest(t.base))
+              for kind, p, a, b in d:
+                  c.violation("C13:manifest:%s:%s" % (kind.split(" ")[0], "inside-root" if p.startswith("outer2/outer1/root") else "outside-root"), "after the in-process campaign on %s: %s %s (before %r, after %r)" % (entry, kind, p, a, b), {"entry": entry, "path": p})
+              if d:
+                  before = fsmon.manifest(t.base)
+          # ---- Engine B under strace
+          srv = server.Server(t.root, threads=4, strace=True)
+          if not srv.started:
+              c.inconc("strace server did not start")
+              srv.cleanup()
+          else:
+              try:
+                  served_file = sorted(k for k in t.files if len(t.files[k]) > 50)[0]
+                  srv.request(("GET %s HTTP/1.1\r\nHost: x\r\n\r\n" % served_file).encode())
+                  nb = 1200 if c.quick else 8000
+                  bpick = pick[:nb]
+                  history = []
+                  for i, (m, shape, raw) in enumerate(ups):
+                      srv.request(raw, timeout=10)
+                      c.ev()
+                      c.cls(m, shape, "binary")
+                      if not srv.alive():
+                          break
+                  for label, raw in bpick:
+                      if not srv.alive():
+                          break
+                      if len(raw) > 10000:
+                          continue
+                      srv.request(raw, timeout=10)
+                      c.ev()
+                  # a C06-style history with transport faults
+                  valid = reqgen.valid_requests(t, rng)
+                  crashers = c06.corpus()
+                  for k in [rng.choice(c06.FAULTS) for _ in range(40 if c.quick else 600)]:
+                      if not srv.alive():
+                          break
+                      if k == "rst-before-send":
+                          continue   # ends the accept loop on the unrepaired tree; the manifest check below does not need it
+                      c06.step(srv, k, rng, valid, crashers, [x[1] for x in pick[:50] if len(x[1]) < 9000] or [b'GET / HTTP/1.1\r\n\r\n'])
+                      c.ev()
+                      c.cls("history", k, "binary")
+                  srv.stop()
+                  bad, opens, writes = fsmon.strace_findings(srv.strace_path)
+                  c.count("strace_opens_inspected", opens)
+                  trace_text = open(srv.strace_path, errors="replace").read()
+                  if os.path.basename(served_file) in trace_text:
+                      c.seen("strace lane saw an open of a served file")
+                  for sc, ln in bad:
+                      c.violation("C13:syscall:%s" % sc.split(":")[0], "mutating filesystem syscall by the server process tree: %s" % ln, {"line": ln})
+                  for p, ln in writes:
+                      if p.startswith("/dev/") or p.startswith("/proc/"):
+                          continue
+                      c.violation("C13:syscall:write-to-file", "write to an opened file %s: %s" % (p, ln), {"line": ln})
+                  c.extra["strace_mutating_syscalls"] = len(bad)
+              finally:
+                  srv.cleanup()
+          d = fsmon.diff(before, fsmon.manifest(t.base))
+          for kind, p, a, b in d:
+              c.violation("C13:manifest:%s:%s" % (kind.split(" ")[0], "inside-root" if p.startswith("outer2/outer1/root") else "outside-root"), "after the real-binary campaign: %s %s (before %r, after %r)" % (kind, p, a, b), {"path": p})
+          c.extra["manifest_entries_compared"] = len(before)
+          c.sample({"manifest_entries": len(before), "upload_requests": [(m, s) for m, s, _ in ups[:6]], "root": t.root})
+          for p in ("/tmp/rws-evil", "/tmp/rws-evil2"):
+              if os.path.exists(p):
+                  c.violation("C13:created-outside:/tmp", "%s exists after the campaign" % p, {"path": p})
+      finally:
         t.cleanup()
